@@ -975,6 +975,67 @@ func checkChecksumUtils(w *World, r *Run, who string) {
 		r.Check(good, rulePoly, cons, posOf(mk), fmt.Sprintf("bitrev(%#x,%d) = %#x, xor-out all ones", poly&mask, cmb.bits, tp), fmt.Sprintf("combine uses polynomial %#x/%d bits/xor %#x but the streaming hash uses table polynomial %#x: combined part CRCs differ from the CRC of the concatenated bytes", poly, bits, xor, tp))
 	}
 
+	// ---- the length of the second operand reaches the combine arithmetic unreduced: parts
+	// may be 5 GiB, more than 32 bits
+	ruleLen := r.Rule("combine-length-is-not-reduced", "F9",
+		"the byte length handed to combine is the closure's len2 parameter through 64-bit conversions only (no mask, modulus or narrowing); the wrappers CombineCrc32/32c/64Nvme pass their bLen parameter through unchanged", 4)
+	narrows := func(v ssa.Value) string {
+		why := ""
+		backSlice(v, false, func(x ssa.Value) {
+			switch y := x.(type) {
+			case *ssa.BinOp:
+				if why == "" {
+					why = "operator " + y.Op.String()
+				}
+			case *ssa.Convert:
+				if bt, ok := y.Type().Underlying().(*types.Basic); ok {
+					switch bt.Kind() {
+					case types.Int64, types.Uint64, types.Int, types.Uint, types.Uintptr:
+					default:
+						why = "conversion to " + bt.Name()
+					}
+				}
+			}
+		})
+		return why
+	}
+	if mkf := w.SSAFunc(relChecksum, "createCombineFunction"); mkf == nil {
+		r.Anchor(ruleLen, "checksumutils.createCombineFunction")
+	} else {
+		found := false
+		allInstrs(mkf, true, func(lit *ssa.Function, ins ssa.Instruction) {
+			c, ok := ins.(*ssa.Call)
+			if !ok || !isCallNamed(c, "combine") || len(c.Call.Args) == 0 {
+				return
+			}
+			found = true
+			arg := c.Call.Args[len(c.Call.Args)-1]
+			fromParam := sliceContains(arg, false, func(x ssa.Value) bool {
+				p, ok := x.(*ssa.Parameter)
+				return ok && p.Parent() == lit && p.Name() == "len2"
+			})
+			why := narrows(arg)
+			r.Check(fromParam && why == "", ruleLen, "createCombineFunction: combine(…, len2)", c.Pos(), "uint64(len2)", "the length is reduced before the combine arithmetic ("+why+"): for a second operand of 4 GiB or more the combined CRC is that of a shorter string")
+		})
+		if !found {
+			r.Bad(ruleLen, "createCombineFunction: combine(…, len2)", mkf.Pos(), "no call to combine found")
+		}
+	}
+	for _, name := range []string{"CombineCrc32", "CombineCrc32c", "CombineCrc64Nvme"} {
+		cf := w.SSAFunc(relChecksum, name)
+		if cf == nil {
+			continue // anchored above
+		}
+		allInstrs(cf, false, func(_ *ssa.Function, ins ssa.Instruction) {
+			c, ok := ins.(*ssa.Call)
+			if !ok || c.Call.StaticCallee() != nil || c.Call.IsInvoke() || len(c.Call.Args) != 3 {
+				return
+			}
+			arg := c.Call.Args[2]
+			r.Check(paramIndex(cf, stripConv(arg)) == 2 && narrows(arg) == "", ruleLen, name+": bLen passed through", c.Pos(), "bLen", "the wrapper changes the length before combining")
+		})
+	}
+
 	// ---- writer
 	if wf := w.SSAFunc(relChecksum, "parallelHashWriter.Write"); wf == nil {
 		r.Anchor(ruleWriter, "parallelHashWriter.Write")
